@@ -1,4 +1,9 @@
 package control_loop
 
+import "github.com/markusressel/fan2go/internal/util"
+
 // ZZMaxChange exposes the configured limit to harnesses in other packages (overlay only).
 func (l *DirectControlLoop) ZZMaxChange() *int { return l.maxPwmChangePerCycle }
+
+// ZZPid exposes the PID memory of the loop to harnesses in other packages (overlay only).
+func (l *PidControlLoop) ZZPid() *util.PidLoop { return l.pidLoop }
